@@ -343,7 +343,8 @@ def grading_case(draw):
         else:
             c.update(count=max(n, 2), start_size=gp_first_c2c(length * lr, max(n, 2), r))
         chops.append(c)
-    return {"L": length, "chops": chops, "peek": [draw(st.booleans()) for _ in chops]}
+    return {"L": length, "chops": chops, "peek": [draw(st.booleans()) for _ in chops],
+            "reuse_factor": draw(st.sampled_from([1.0, 0.37, 2.5, 7.3]))}
 
 
 def check_grading(case, ctx: Ctx) -> None:
@@ -371,6 +372,29 @@ def check_grading(case, ctx: Ctx) -> None:
             raise Violation("section-mismatch", f"section {s} vs per-chop result {e}", **facts)
     if g.count != sum(e[1] for e in expect):
         raise Violation("count-sum", f"Grading.count {g.count} != sum of section counts", **facts)
+    # the same Chop objects used again on an edge of another length: the user's parameter record must not have
+    # been turned into something else by its first use
+    L2 = L * case.get("reuse_factor", 1.0)
+    if L2 != L:
+        objs = [Chop(**c) for c in case["chops"]]
+        g1 = Grading(L)
+        g2 = Grading(L2)
+        fresh = Grading(L2)
+        try:
+            for o in objs:
+                g1.add_chop(o)
+            for o in objs:
+                g2.add_chop(o)
+            for c in case["chops"]:
+                fresh.add_chop(Chop(**c))
+        except Exception:
+            ctx.label("reuse-rejected")
+        else:
+            a = [[float(x) for x in sec] for sec in g2.specification]
+            b = [[float(x) for x in sec] for sec in fresh.specification]
+            if len(a) != len(b) or any(int(x[1]) != int(y[1]) or rel(x[2], y[2]) > 1e-12 for x, y in zip(a, b)):
+                raise Violation("chop-changed-by-use", f"a Chop used before gives {a} on length {L2}, a fresh one {b}", **facts)
+            ctx.label("reused-chop")
     sizes = multi_sizes(L, spec)
     if abs(sum(sizes) - L) > 1e-9 * L:
         raise Violation("sizes-sum", "reference sizes do not add up (length ratios do not sum to 1?)", **facts)
